@@ -355,6 +355,18 @@ impl IgnoreFilter {
 			// Unwrap will always succeed because every node has an entry.
 			let ignores = trie_node.value().unwrap();
 
+			// The trie matches on string prefixes, so `/a/test` is found for `/a/tests/x`: only
+			// consult ignore files of directories that actually contain the path.
+			let trie_path = Path::new(trie_node.key().unwrap());
+			if !path.starts_with(trie_path) {
+				trace!(?path, ?trie_path, "ignore file is for a sibling, skipping");
+				if let Some(trie_parent) = trie_path.parent() {
+					search_path = trie_parent;
+					continue;
+				}
+				return Match::None;
+			}
+
 			let match_ = if path.strip_prefix(&self.origin).is_ok() {
 				trace!(?path, ?search_path, "checking against path or parents");
 				ignores.gitignore.matched_path_or_any_parents(path, is_dir)
@@ -370,8 +382,6 @@ impl IgnoreFilter {
 						?search_path,
 						"no match found, searching for parent ignores"
 					);
-					// Unwrap will always succeed because every node has an entry.
-					let trie_path = Path::new(trie_node.key().unwrap());
 					if let Some(trie_parent) = trie_path.parent() {
 						trace!(?path, ?search_path, "checking parent ignore");
 						search_path = trie_parent;
